@@ -172,6 +172,18 @@ class Graph:
         if not self.inits:
             raise MachineryError('model emitted no initial state')
 
+    def succ_states(self, u):
+        """distinct successor states of u with one event leading there (cached)"""
+        c = self.__dict__.setdefault('_succ', {})
+        r = c.get(u)
+        if r is None:
+            d = {}
+            for ev, v in self.out.get(u, ()):
+                if v not in d and v != u:
+                    d[v] = ev
+            r = c[u] = list(d.items())
+        return r
+
     def states(self):
         s = set(self.out.keys())
         for k in list(self.out.keys()):
@@ -185,7 +197,7 @@ class Graph:
         q = collections.deque([init])
         while q:
             u = q.popleft()
-            for ev, v in self.out.get(u, ()):
+            for v, ev in self.succ_states(u):
                 if v not in parent:
                     parent[v] = (u, ev)
                     q.append(v)
@@ -228,7 +240,7 @@ class Graph:
                         if untaken[u]:
                             tgt = u
                             break
-                        for ev, v in self.out.get(u, ()):
+                        for v, ev in self.succ_states(u):
                             if v not in seen:
                                 seen[v] = (u, ev)
                                 q.append(v)
